@@ -198,6 +198,51 @@ extern "C"
                 XalanHandle     theXalanHandle);
 
     /**
+     * Transform the XML source tree to a dynamically allocated buffer and
+     * report the number of bytes in the result.
+     *
+     * XalanTransformToData and XalanTransformToDataPrebuilt return a
+     * null-terminated buffer without its length, so a result that contains
+     * zero bytes (for example, xsl:output encoding="UTF-16") cannot be read
+     * back from them.  These two functions are the same, except that they
+     * also store the length of the result, not counting the terminating
+     * null byte, in theOutputLength.  The user must call XalanFreeData with
+     * the pointer to free the memory.
+     *
+     * @param theXMLFileName    The file name of the XML document.
+     * @param theXSLFileName    The file name of the stylesheet XML document, or null to use the xml-stylesheet PI.
+     * @param theOutput         a pointer to a char*
+     * @param theOutputLength   a pointer to an unsigned long that receives the length of the result
+     * @param theXalanHandle    handle of XalanTransformer instance.
+     * @return  0 for success
+     */
+    XALAN_TRANSFORMER_EXPORT_FUNCTION(int)
+    XalanTransformToDataWithLength(
+            const char*     theXMLFileName,
+            const char*     theXSLFileName,
+            char**          theOutput,
+            unsigned long*  theOutputLength,
+            XalanHandle     theXalanHandle);
+
+    /**
+     * @see XalanTransformToDataWithLength
+     *
+     * @param theParsedSource   The handle of a parsed source
+     * @param theCSSHandle      The handle of compiled stylesheet
+     * @param theOutput         a pointer to a char*
+     * @param theOutputLength   a pointer to an unsigned long that receives the length of the result
+     * @param theXalanHandle    handle of XalanTransformer instance.
+     * @return  0 for success
+     */
+    XALAN_TRANSFORMER_EXPORT_FUNCTION(int)
+    XalanTransformToDataPrebuiltWithLength(
+                XalanPSHandle   theParsedSource,
+                XalanCSSHandle  theCSSHandle,
+                char**          theOutput,
+                unsigned long*  theOutputLength,
+                XalanHandle     theXalanHandle);
+
+    /**
      * Free memory allocated as a result of calling
      * XalanTransformToData.
      *
